@@ -100,7 +100,7 @@ theorem succInv_step (e : Ep) (ev : Ev) (hi : SuccInv e) : SuccInv (step e ev).1
     · split
       · exact hi
       · exact succInv_of_eq (by simp) (by simp) hi
-  | pump n => simp only []; split <;> first | exact hi | exact succInv_of_eq (by simp) (by simp) hi
+  | pump n => simp only []; split <;> (try split) <;> first | exact hi | exact succInv_of_eq (by simp) (by simp) hi
   | rxEof => simp only []; split <;> first | exact hi | exact succInv_of_eq (by simp) (by simp) hi
   | keepaliveTimer =>
     simp only []
